@@ -43,6 +43,34 @@ struct Cli {
     agg_cfg: AggConfigArgs,
 }
 
+// Heap bytes requested through the global allocator: the load-independent measure of "did the constructor do any
+// builder work before rejecting" (validate + one anyhow error allocate a few hundred bytes; CircuitBuilder::new
+// alone allocates far more).
+struct CountingAlloc;
+static ALLOCATED: std::sync::atomic::AtomicUsize = std::sync::atomic::AtomicUsize::new(0);
+unsafe impl std::alloc::GlobalAlloc for CountingAlloc {
+    unsafe fn alloc(&self, l: std::alloc::Layout) -> *mut u8 {
+        ALLOCATED.fetch_add(l.size(), std::sync::atomic::Ordering::Relaxed);
+        std::alloc::System.alloc(l)
+    }
+    unsafe fn dealloc(&self, p: *mut u8, l: std::alloc::Layout) {
+        std::alloc::System.dealloc(p, l)
+    }
+    unsafe fn alloc_zeroed(&self, l: std::alloc::Layout) -> *mut u8 {
+        ALLOCATED.fetch_add(l.size(), std::sync::atomic::Ordering::Relaxed);
+        std::alloc::System.alloc_zeroed(l)
+    }
+    unsafe fn realloc(&self, p: *mut u8, l: std::alloc::Layout, n: usize) -> *mut u8 {
+        ALLOCATED.fetch_add(n.saturating_sub(l.size()), std::sync::atomic::Ordering::Relaxed);
+        std::alloc::System.realloc(p, l, n)
+    }
+}
+#[global_allocator]
+static GLOBAL: CountingAlloc = CountingAlloc;
+fn allocated() -> usize {
+    ALLOCATED.load(std::sync::atomic::Ordering::Relaxed)
+}
+
 // =================================================================================================== C28
 
 type Cfg = [u64; 9];
@@ -182,11 +210,12 @@ const CONSTRUCTORS: [&str; 6] = [
 ];
 
 /// one constructor call; returns (Some(is_ok) | None on panic, seconds). Argument clones happen before the clock starts.
-fn call_constructor(k: usize, cfg: CircuitConfig, fx: &Fixtures) -> (Option<bool>, f64) {
+fn call_constructor(k: usize, cfg: CircuitConfig, fx: &Fixtures) -> (Option<bool>, f64, usize) {
     let leaf_common = fx.leaf_common.clone();
     let dummy_leaf = fx.dummy_leaf.clone();
     let pb_common = fx.pb_common.clone();
     let dummy_pb = fx.dummy_pb.clone();
+    let a0 = allocated();
     let t0 = Instant::now();
     let r = no_panic(move || match k {
         0 => WormholeCircuit::new(cfg).is_ok(),
@@ -196,23 +225,29 @@ fn call_constructor(k: usize, cfg: CircuitConfig, fx: &Fixtures) -> (Option<bool
         4 => PublicBatchCircuit::new(cfg, pb_common, &fx.pb_vo, 1, 1).is_ok(),
         _ => PublicBatchProver::new(cfg, pb_common, &fx.pb_vo, 1, 1, dummy_pb).is_ok(),
     });
-    (r, t0.elapsed().as_secs_f64())
+    let dt = t0.elapsed().as_secs_f64();
+    (r, dt, allocated() - a0)
 }
 
-/// a rejection must come before any builder work: far below the cheapest build (tens of ms)
+/// a rejection must come before any builder work: a few hundred heap bytes (the error value), and far less time
+/// than the cheapest builder set-up (milliseconds)
 const REJECT_BUDGET_S: f64 = 0.005;
+const REJECT_BUDGET_BYTES: usize = 16 * 1024;
 
-fn probe_reject(out: &mut Out, tag: &str, k: usize, c: &Cfg, fx: &Fixtures, slowest: &mut f64) -> bool {
-    // the fastest of up to five attempts counts (machine load must not turn into a false alarm)
+fn probe_reject(out: &mut Out, tag: &str, k: usize, c: &Cfg, fx: &Fixtures, worst: &mut (f64, usize)) -> bool {
+    // time: the fastest of up to five attempts counts (machine load must not turn into a false alarm);
+    // heap bytes are deterministic
     let mut best = f64::MAX;
     let mut res = None;
+    let mut bytes = 0usize;
     for _ in 0..5 {
-        let (r, dt) = call_constructor(k, to_config(c), fx);
+        let (r, dt, b) = call_constructor(k, to_config(c), fx);
         res = r;
+        bytes = b;
         if dt < best {
             best = dt;
         }
-        if r != Some(false) || best < REJECT_BUDGET_S {
+        if r != Some(false) || best < REJECT_BUDGET_S || dt > 0.25 || b > REJECT_BUDGET_BYTES {
             break;
         }
     }
@@ -220,15 +255,16 @@ fn probe_reject(out: &mut Out, tag: &str, k: usize, c: &Cfg, fx: &Fixtures, slow
         None => PANIC.to_vec(),
         Some(true) => vec![1],
         Some(false) => {
-            if best < REJECT_BUDGET_S {
+            if best < REJECT_BUDGET_S && bytes <= REJECT_BUDGET_BYTES {
                 vec![0]
             } else {
                 vec![-3]
             }
         }
     };
-    if res == Some(false) && best > *slowest {
-        *slowest = best;
+    if res == Some(false) {
+        worst.0 = worst.0.max(best);
+        worst.1 = worst.1.max(bytes);
     }
     out.case(2802, tag, &[vec![k as i128], seg_u64(c)], &enc);
     enc == vec![0]
@@ -326,7 +362,18 @@ fn c28(out: &mut Out, rng: &mut Rng, thorough: bool) {
 
     // ---------------------------------------------------------------- constructors
     let t0 = Instant::now();
-    let fx = fixtures();
+    // the fixtures are built with the canonical configs; if even that fails (reported through 2801/2804) the
+    // constructor probes cannot be set up and are skipped
+    let fx = match no_panic(fixtures) {
+        Some(fx) => fx,
+        None => {
+            out.note("fixtures_failed", "canonical-config fixtures could not be built; constructor probes skipped");
+            // PrivateBatchCircuit::new over the canonical private-batch config did not produce a circuit
+            out.case(2802, "fixture", &[vec![2], seg_u64(&bases[3])], &PANIC);
+            cli_cases(out, rng, thorough);
+            return;
+        }
+    };
     out.note("fixtures_s", &format!("{:.2}", t0.elapsed().as_secs_f64()));
     let base = bases[3];
     // stage A: failing configs whose unchecked build is bounded (panics or finishes quickly)
@@ -374,20 +421,32 @@ fn c28(out: &mut Out, rng: &mut Rng, thorough: bool) {
             wild.push(c);
         }
     }
-    let mut slowest = 0.0f64;
+    let mut slowest = (0.0f64, 0usize);
+    let mut dirty = [false; 6];
     for k in 0..6 {
-        let mut clean = true;
+        // the prover constructors (odd k) go through the circuit constructor k-1: if that one already started a
+        // build on a failing config, do not repeat the experiment through the wrapper
+        if k % 2 == 1 && dirty[k - 1] {
+            dirty[k] = true;
+            out.note("constructor_probes_skipped", CONSTRUCTORS[k]);
+            continue;
+        }
         for c in &mild {
             debug_assert!(!spec_ok(c));
             if validate_circuit_config(&to_config(c)).is_ok() {
                 // the policy function itself lets it through (reported under 2801): do not start a build
                 out.note("constructor_probe_skipped", &format!("{} {:?}", CONSTRUCTORS[k], c));
-                clean = false;
-                continue;
+                dirty[k] = true;
+                break;
             }
-            clean &= probe_reject(out, "reject-mild", k, c, &fx, &mut slowest);
+            if !probe_reject(out, "reject-mild", k, c, &fx, &mut slowest) {
+                // not a clean, immediate rejection: reported; every further probe of this constructor would
+                // run an unchecked build
+                dirty[k] = true;
+                break;
+            }
         }
-        if !clean {
+        if dirty[k] {
             out.note("constructor_stage_b_skipped", CONSTRUCTORS[k]);
             continue;
         }
@@ -396,10 +455,15 @@ fn c28(out: &mut Out, rng: &mut Rng, thorough: bool) {
                 out.note("constructor_probe_skipped", &format!("{} {:?}", CONSTRUCTORS[k], c));
                 continue;
             }
-            probe_reject(out, "reject-wild", k, c, &fx, &mut slowest);
+            if !probe_reject(out, "reject-wild", k, c, &fx, &mut slowest) {
+                dirty[k] = true;
+                out.note("constructor_stage_b_aborted", CONSTRUCTORS[k]);
+                break;
+            }
         }
     }
-    out.note("slowest_rejection_s", &format!("{:.6}", slowest));
+    out.note("slowest_rejection_s", &format!("{:.6}", slowest.0));
+    out.note("largest_rejection_heap_bytes", &format!("{}", slowest.1));
     // passing configs: a handful, known to build (canonical ones and mild variants)
     let mut passing: Vec<Cfg> = if thorough { vec![bases[0], bases[3]] } else { vec![bases[3]] };
     let mut v = bases[3];
@@ -418,7 +482,7 @@ fn c28(out: &mut Out, rng: &mut Rng, thorough: bool) {
             continue;
         }
         for k in 0..6 {
-            let (r, dt) = call_constructor(k, to_config(c), &fx);
+            let (r, dt, _) = call_constructor(k, to_config(c), &fx);
             let enc: Vec<i128> = match r {
                 None => PANIC.to_vec(),
                 Some(true) => vec![1],
@@ -429,6 +493,10 @@ fn c28(out: &mut Out, rng: &mut Rng, thorough: bool) {
         }
     }
 
+    cli_cases(out, rng, thorough);
+}
+
+fn cli_cases(out: &mut Out, rng: &mut Rng, thorough: bool) {
     // ---------------------------------------------------------------- CLI
     // option order of the segment: rate, cap, wires, routed, quotient, queries, security, challenges
     const FLAGS: [&str; 8] = [
@@ -1211,6 +1279,15 @@ fn main() {
     let thorough = tier_is_thorough();
     let mut out = Out::new();
     let which = std::env::args().nth(1).unwrap_or_else(|| "all".into());
+    if which == "probe" {
+        // config probe <k> <9 decimal config fields>: one constructor call, for replaying a 2802 case by hand
+        let a: Vec<u64> = std::env::args().skip(2).map(|x| x.parse().expect("decimal")).collect();
+        let c: Cfg = a[1..10].try_into().expect("9 fields");
+        let fx = fixtures();
+        let (r, dt, b) = call_constructor(a[0] as usize, to_config(&c), &fx);
+        println!("{} {:?} -> {:?} in {:.4}s, {} heap bytes", CONSTRUCTORS[a[0] as usize], c, r, dt, b);
+        return;
+    }
     if which == "all" || which == "c28" {
         let mut r = rng.fork();
         c28(&mut out, &mut r, thorough);
